@@ -107,7 +107,13 @@ class SphinxRenderer(DocutilsRenderer):
                 line=token_line(token, 0),
                 append_to=self.current_node,
             )
-            return self.render_link_url(token)
+            self.render_link_url(token)
+            ref_node = self.current_node[-1]
+            if not ref_node.children:
+                # no explicit text: show the destination, rather than an invisible link
+                text = path_dest + (f"#{path_id}" if path_id else "")
+                ref_node.append(nodes.literal(text, text))
+            return None
         wrap_node = addnodes.pending_xref(
             refdomain="doc",
             reftarget=docname,
